@@ -134,8 +134,12 @@ def render_batch(patterns, idx):
         fields.append((f"r{i}", "string", {"ref": rtype}))
     fb.message("GetRequest", fields)
     fb.message("Reply", [("x", "string")])
+    # a resource that is visible to the service ONLY as the response type of a long-running method
+    fb.message("LroOnly", [("name", "string")], resource=(f"res.googleapis.com/Lro{idx}", ["lros/{lro}"]))
+    fb.message("LroMeta", [("p", "int32")])
     svc = fb.service("ResSvc")
     fb.method(svc, "Get", "GetRequest", "Reply")
+    fb.method(svc, "Run", "Reply", "google.longrunning.Operation", lro=("LroOnly", "LroMeta"))
     g = gen.generate([fb], parameter="transport=grpc")
     return g.text("services/res_svc/client.py"), g.text("services/res_svc/async_client.py")
 
@@ -431,9 +435,13 @@ def concrete_violation(h, pattern, cex):
 
 
 def replay(chk, data):
+    if data["cex"].get("kind") == "missing":
+        client, _ = render_batch(data["cex"]["batch"], data["cex"]["idx"])
+        hs = extract_helpers(client)
+        return None if data["cex"]["helper"] in hs else data["text"]
     client, _ = render_batch([data["pattern"]], 0)
     hs = extract_helpers(client)
-    h = [v for k, v in hs.items() if not k.startswith("common_")][0]
+    h = [v for k, v in hs.items() if not k.startswith("common_") and not k.startswith("lro")][0]
     return concrete_violation(h, data["pattern"], data["cex"])
 
 
@@ -499,14 +507,26 @@ def body(chk: core.Check):
     for bi, (b, (client, aclient)) in enumerate(zip(batches, rendered)):
         hs = extract_helpers(client)
         own = {k: v for k, v in hs.items() if not k.startswith("common_")}
-        if len(own) != len(b):
-            raise core.Inconclusive(f"batch {bi}: {len(own)} helpers for {len(b)} patterns "
-                                    "(duplicate/omitted helper)")
+        # every resource visible to the service must have its pair of helpers
+        lro_name = f"lro{bi}_path"
+        if lro_name in own:
+            chk.ok("helpers-offered", f"batch{bi}:LRO-response-only resource")
+            if bi == 0:
+                helpers_by_pattern["lros/{lro}"] = own[lro_name]
+            del own[lro_name]
+        else:
+            chk.violation("helper-missing:lro-response-resource",
+                          f"batch {bi}: no {lro_name} / parse_{lro_name} although the resource is the response type of an LRO method",
+                          {"pattern": "lros/{lro}", "cex": {"kind": "missing", "helper": lro_name, "batch": list(b), "idx": bi}})
         for i, p in enumerate(b):
             name = f"kind{bi}x{i}_path"
             if name not in own:
-                raise core.Inconclusive(f"helper {name} missing")
+                chk.violation(f"helper-missing:{p}", f"batch {bi}: no helper {name} for the visible resource pattern {p!r}",
+                              {"pattern": p, "cex": {"kind": "missing", "helper": name, "batch": list(b), "idx": bi}})
+                continue
             helpers_by_pattern[p] = own[name]
+        if len(own) > len(b):
+            raise core.Inconclusive(f"batch {bi}: unexpected extra helpers {sorted(set(own) - {f'kind{bi}x{i}_path' for i in range(len(b))})}")
         # async client must alias the sync helpers
         for name in hs:
             for nm in (name, "parse_" + name):
